@@ -322,8 +322,10 @@ LEVEL_TEXT = (
     'target that is also linked is requested twice (C01_each_url_requested_once_refuted; without redirects: '
     'C01_requested_once_without_redirects), and with several workers the recorded level is the first-discovery level, so the set '
     'of fetched URLs depends on the schedule under a depth limit (C01_schedule_independent_refuted). '
-    '"In whatever spelling" is carried by the correspondence (spellings are tied to canonical URLs by the generator) and by C10, '
-    'not by these theorems.')
+    '"In whatever spelling" is carried by the correspondence (spellings are tied to canonical URLs by the generator: scheme/host case, '
+    'fragments, dot and empty segments at the start, in the middle and at the END of the path, relative forms) and by C10, not by these '
+    'theorems. The first-discovery defect has a second face, also a known finding (root-first-discovery): with several start URLs a row keeps '
+    'the root of the page that found it first, and --no-parent is evaluated against that root.')
 LEVEL_NOTE = (
     'Trusted: Coq kernel + vm_compute; the hand-written LTS and filter model, tied to the code by replaying the recorded table '
     'transactions and request logs of real end-to-end crawls on the model in every run; scraper output order, regex verdicts, '
